@@ -64,6 +64,15 @@ public:
   /// See class-level documentation for the ordering invariant.
   virtual ConnectResult connect(const std::string &host, std::uint16_t port,
                                 TlsMode tlsMode) = 0;
+  /// \brief connect() to an already resolved address on behalf of \p serverName:
+  /// a TLS client announces that name (SNI) and checks the certificate against
+  /// it. Engines without TLS support ignore the name.
+  virtual ConnectResult connectNamed(const std::string &host, std::uint16_t port, TlsMode tlsMode,
+                                     const std::string &serverName)
+  {
+    (void)serverName;
+    return connect(host, port, tlsMode);
+  }
   virtual ConnectResult connectViaListener(ListenerId lid, const std::string &host,
                                            std::uint16_t port) = 0;
   virtual bool close(SessionId sid) = 0;
